@@ -187,7 +187,13 @@ func (te *tableEngine) batchAddPlayers(players []JoinPlayer) error {
 	playerSeatIDs := make(map[string]int)
 	playerRandomSeatIDs := make([]string, 0)
 
+	joinPlayerIDs := make(map[string]bool)
 	for _, p := range players {
+		if _, exist := joinPlayerIDs[p.PlayerID]; exist {
+			return seat_manager.ErrDuplicatePlayers
+		}
+		joinPlayerIDs[p.PlayerID] = true
+
 		if p.Seat == seat_manager.UnsetSeatID {
 			playerRandomSeatIDs = append(playerRandomSeatIDs, p.PlayerID)
 		} else {
